@@ -41,6 +41,11 @@ chk("C14", "texel (two real processes per case)",
     "Held on every case run (32 quick / 1500 thorough; prior-session lengths around the 4-bit generation wrap are forced). Histories are sampled; equality of complete transcripts is an exact oracle per case.",
     "Threads=1 probes, synthetic network; periodic time-driven statistics lines are excluded from the transcript (only the final node count is compared)",
     "DESIGN.md section 3 C14")
+chk("C11", "texel (real process) + h_game",
+    "runtime monitors with a reference model: (1) UCI scores of 'go searchmoves m' on generated histories where refchess says m creates the third occurrence / completes 100 reversible plies / mates; (2) console Game class vs a FIDE reference model after every command of random and directed command histories (rel + ASan)",
+    "Held on every generated history (3000 quick / 60000 thorough search cases; 16000 / 800000 console games). Only the positive direction is asserted for searches (draw => cp 0, mate => mate 1); 2nd-occurrence controls are run but not judged because a 0 score is legitimate there.",
+    "refchess position identity (legally capturable e.p. only); Contempt 0; depth-limited searches (no on-demand tablebase)",
+    "DESIGN.md section 3 C11")
 
 
 def main():
@@ -74,6 +79,7 @@ def main():
         engines=[
             dict(name="texel", path="/verif/build/<variant>/texel", serves_properties=["C03", "C04", "C05", "C09", "C11", "C13", "C14"], kind_free_text="the real engine program: app/texel + texellib compiled from /repo in place, linked with src/common/netload.cpp (network chosen by $VERIF_NET)"),
             dict(name="refchess-cli", path="/verif/src/common/refchess_cli.cpp", serves_properties=["C03", "C04", "C11", "C13"], kind_free_text="line-protocol front end of the independent rules oracle"),
+            dict(name="h_game", path="/verif/src/h_game.cpp", serves_properties=["C11"], kind_free_text="in-process harness: class Game with stub players vs a reference model on refchess"),
             dict(name="h_rules", path="/verif/src/h_rules.cpp", serves_properties=["C01", "C02", "C17"], kind_free_text="in-process harness linking texellib + refchess oracle (rel and asan+ubsan builds)"),
         ],
         checks=checks,
